@@ -722,6 +722,11 @@ func (h *handler1) handleSubscribe(ctx context.Context, snSubscribe *snPkts1.Sub
 		if !ok {
 			return fmt.Errorf("unknown topic id %d", snSubscribe.TopicID)
 		}
+		// The name comes from the configuration, it must be translatable to
+		// a valid MQTT SUBSCRIBE as well.
+		if !isValidTopicFilter(topic) {
+			return fmt.Errorf("invalid predefined topic filter %#v", topic)
+		}
 		topicID = snSubscribe.TopicID
 	case snPkts1.TIT_SHORT:
 		topic = snPkts.DecodeShortTopic(snSubscribe.TopicID)
@@ -750,6 +755,9 @@ func (h *handler1) handleUnsubscribe(snUnsubscribe *snPkts1.Unsubscribe) error {
 		topic, ok = h.predefinedTopics.GetTopicName(h.clientID, snUnsubscribe.TopicID)
 		if !ok {
 			return fmt.Errorf("unknown topic id %d", snUnsubscribe.TopicID)
+		}
+		if !isValidTopicFilter(topic) {
+			return fmt.Errorf("invalid predefined topic filter %#v", topic)
 		}
 	case snPkts1.TIT_SHORT:
 		topic = snPkts.DecodeShortTopic(snUnsubscribe.TopicID)
